@@ -185,6 +185,106 @@ impl<T, A: Ord + Clone> List<T, A> {
     }
 //@end
 
+//@extract fn src/list.rs "List" delete_index
+    pub fn delete_index(&self, ix: usize, actor: A) -> /*@ (r: @*/ Option<Op<T, A>> /*@ ) @*/
+    //@ requires list_ok::<A>(), clone_ok::<OrdDot<A>>(), cnt(self.cl(), actor) < u64::MAX,
+    //@ ensures
+    //@     // C13: names exactly the element that is ix-th in the current sequence, tagged with the actor's next dot
+    //@     exists|s: Seq<Id<A>>| #[trigger] is_order(s, self.sq()) && (r is Some <==> ix < s.len())
+    //@         && (r is Some ==> r->0 is Delete && r->0->Delete_id == s[ix as int] && cloned(actor, r->0->Delete_dot.actor) && r->0->Delete_dot.counter == cnt(self.cl(), actor) + 1),
+    {
+        //@ broadcast use vstd::std_specs::iter::group_iter_axioms;
+        //@ let k0 = self.seq.keys();
+        //@ let ghost kr = k0.remaining();
+        //@ let ghost ksu = vstd::std_specs::btree::into_iter_keys(k0);
+        //@ proof { lemma_keys_order(kr, self.seq@); assert(is_order(ksu, self.sq())); }
+        /*@ let n0 = shim_iter_nth(k0, ix); proof { assert(n0 is Some <==> ix < ksu.len()); if ix < ksu.len() { assert(*n0->0 == ksu[ix as int]); } } let n1 = n0 @*/ /*@<*/ self.seq.keys().nth(ix) /*@>*/ .cloned() /*@ ; proof { assert(n1 is Some ==> n1->0 == ksu[ix as int]); } n1 @*/ .map(|id /*@ : Id<A> @*/ | /*@ -> (o: Op<T, A>) requires actor_ok::<A>(), cnt(self.clock@, actor) < u64::MAX ensures o is Delete && o->Delete_id == id && cloned(actor, o->Delete_dot.actor) && o->Delete_dot.counter == cnt(self.clock@, actor) + 1 { @*/ {
+            let dot = self.clock.inc(actor);
+            Op::Delete { id, dot }
+        } /*@ } @*/ )
+    }
+//@end
+
+//@extract fn src/list.rs "List" iter
+    pub fn iter(&self) -> /*@ (r: @*/ impl Iterator<Item = &T> /*@ ) @*/
+    //@ ensures
+    //@     // C12/C13: the replica shows its values in increasing identifier order
+    //@     vstd::std_specs::btree::key_obeys_cmp_spec::<Id<A>>() && vstd::laws_cmp::obeys_cmp::<Id<A>>() ==> exists|s: Seq<Id<A>>| #[trigger] is_order(s, self.sq()) && r.remaining() == s.map(|i: int, k: Id<A>| &self.sq()[k]),
+    //@     r.obeys_prophetic_iter_laws(),
+    {
+        //@ let v =
+        self.seq.values()
+        //@ ; proof { if vstd::std_specs::btree::key_obeys_cmp_spec::<Id<A>>() && vstd::laws_cmp::obeys_cmp::<Id<A>>() { let m = self.seq@; let ks = choose|ks: Seq<Id<A>>| vstd::std_specs::btree::increasing_seq(ks) && ks.to_set() == m.dom() && ks.no_duplicates() && v.remaining() == ks.map(|i: int, k: Id<A>| &m[k]); lemma_keys_order_owned(ks, m); assert(is_order(ks, self.sq())); } }
+        //@ v
+    }
+//@end
+
+//@extract fn src/list.rs "List" iter_entries
+    pub fn iter_entries(&self) -> /*@ (r: @*/ impl Iterator<Item = (&Identifier<OrdDot<A>>, &T)> /*@ ) @*/
+    //@ ensures
+    //@     vstd::std_specs::btree::key_obeys_cmp_spec::<Id<A>>() && vstd::laws_cmp::obeys_cmp::<Id<A>>() ==> exists|s: Seq<Id<A>>| #[trigger] is_order(s, self.sq()) && entries_in_order(r.remaining(), s, self.sq()),
+    {
+        //@ let v =
+        self.seq.iter()
+        //@ ; proof { if vstd::std_specs::btree::key_obeys_cmp_spec::<Id<A>>() && vstd::laws_cmp::obeys_cmp::<Id<A>>() { let es = v.remaining(); let kr = choose|kr: Seq<Id<A>>| #[trigger] vstd::std_specs::btree::increasing_seq(kr) && kr.len() == es.len() && forall|i: int| 0 <= i < es.len() ==> #[trigger] kr[i] == *es[i].0; lemma_entries_order(es, kr, self.seq@); let s = choose|s: Seq<Id<A>>| #[trigger] is_order(s, self.seq@) && entries_in_order(es, s, self.seq@); assert(is_order(s, self.sq()) && entries_in_order(v.remaining(), s, self.sq())); } }
+        //@ v
+    }
+//@end
+
+//@extract fn src/list.rs "List" position
+    pub fn position(&self, ix: usize) -> /*@ (r: @*/ Option<&T> /*@ ) @*/
+    //@ requires list_ok::<A>(),
+    //@ ensures
+    //@     // C13 observation: the ix-th value in identifier order
+    //@     exists|s: Seq<Id<A>>| #[trigger] is_order(s, self.sq()) && (r is Some <==> ix < s.len()) && (r is Some ==> *r->0 == self.sq()[s[ix as int]]),
+    {
+        //@ broadcast use vstd::std_specs::iter::group_iter_axioms;
+        /*@ let it0 = self.iter(); let r0 = shim_iter_nth(it0, ix); r0 @*/ /*@<*/ self.iter().nth(ix) /*@>*/
+    }
+//@end
+
+//@extract fn src/list.rs "List" first
+    pub fn first(&self) -> /*@ (r: @*/ Option<&T> /*@ ) @*/
+    //@ requires list_ok::<A>(),
+    //@ ensures exists|s: Seq<Id<A>>| #[trigger] is_order(s, self.sq()) && (r is Some <==> s.len() > 0) && (r is Some ==> *r->0 == self.sq()[s[0]]),
+    {
+        self.first_entry().map(| /*@ p: (&Identifier<OrdDot<A>>, &T) @*/ /*@<pat*/ (_, val) /*@>*/ | /*@ -> (o: &T) ensures o == p.1 { let $pat = p; @*/ val /*@ } @*/ )
+    }
+//@end
+
+//@extract fn src/list.rs "List" first_entry
+    pub fn first_entry(&self) -> /*@ (r: @*/ Option<(&Identifier<OrdDot<A>>, &T)> /*@ ) @*/
+    //@ requires list_ok::<A>(),
+    //@ ensures exists|s: Seq<Id<A>>| #[trigger] is_order(s, self.sq()) && (r is Some <==> s.len() > 0) && (r is Some ==> *(r->0).0 == s[0] && *(r->0).1 == self.sq()[s[0]]),
+    {
+        //@ broadcast use vstd::std_specs::iter::group_iter_axioms;
+        /*@ let mut it0 = @*/ self.seq.iter() /*@ ; let ghost es = it0.remaining(); proof { let kr = choose|kr: Seq<Id<A>>| #[trigger] vstd::std_specs::btree::increasing_seq(kr) && kr.len() == es.len() && forall|i: int| 0 <= i < es.len() ==> #[trigger] kr[i] == *es[i].0; lemma_entries_order(es, kr, self.seq@); } let r0 = it0 @*/ .next()
+        //@ ; proof { let s = choose|s: Seq<Id<A>>| #[trigger] is_order(s, self.seq@) && entries_in_order(es, s, self.seq@); assert(is_order(s, self.sq())); assert(r0 is Some <==> s.len() > 0); assert(s.len() > 0 ==> r0->0 == es[0]); }
+        //@ r0
+    }
+//@end
+
+//@extract fn src/list.rs "List" last
+    pub fn last(&self) -> /*@ (r: @*/ Option<&T> /*@ ) @*/
+    //@ requires list_ok::<A>(),
+    //@ ensures exists|s: Seq<Id<A>>| #[trigger] is_order(s, self.sq()) && (r is Some <==> s.len() > 0) && (r is Some ==> *r->0 == self.sq()[s.last()]),
+    {
+        self.last_entry().map(| /*@ p: (&Identifier<OrdDot<A>>, &T) @*/ /*@<pat*/ (_, val) /*@>*/ | /*@ -> (o: &T) ensures o == p.1 { let $pat = p; @*/ val /*@ } @*/ )
+    }
+//@end
+
+//@extract fn src/list.rs "List" last_entry
+    pub fn last_entry(&self) -> /*@ (r: @*/ Option<(&Identifier<OrdDot<A>>, &T)> /*@ ) @*/
+    //@ requires list_ok::<A>(),
+    //@ ensures exists|s: Seq<Id<A>>| #[trigger] is_order(s, self.sq()) && (r is Some <==> s.len() > 0) && (r is Some ==> *(r->0).0 == s.last() && *(r->0).1 == self.sq()[s.last()]),
+    {
+        //@ broadcast use vstd::std_specs::iter::group_iter_axioms;
+        /*@ let mut it0 = @*/ self.seq.iter() /*@ ; let ghost es = it0.remaining(); proof { let kr = choose|kr: Seq<Id<A>>| #[trigger] vstd::std_specs::btree::increasing_seq(kr) && kr.len() == es.len() && forall|i: int| 0 <= i < es.len() ==> #[trigger] kr[i] == *es[i].0; lemma_entries_order(es, kr, self.seq@); } let r0 = it0 @*/ .next_back()
+        //@ ; proof { let s = choose|s: Seq<Id<A>>| #[trigger] is_order(s, self.seq@) && entries_in_order(es, s, self.seq@); assert(is_order(s, self.sq())); assert(r0 is Some <==> s.len() > 0); assert(s.len() > 0 ==> r0->0 == es.last()); }
+        //@ r0
+    }
+//@end
+
 //@extract fn src/list.rs "List" len
     pub fn len(&self) -> /*@ (r: @*/ usize /*@ ) @*/
     //@ ensures vstd::std_specs::btree::key_obeys_cmp_spec::<Id<A>>() ==> r == self.sq().len(),
@@ -291,6 +391,53 @@ pub proof fn lemma_keys_order<A: Ord, T>(ks: Seq<&Id<A>>, m: SMap<Id<A>, T>)
         assert(id_cmp(ks[i]@, ks[j]@) == Ordering::Less);
     }
     assert forall|i: int, j: int| 0 <= i < s.len() && 0 <= j < s.len() && i != j implies s[i] != s[j] by { assert(ks[i] != ks[j]); }
+}
+
+/// the iter() iterator of the BTreeMap enumerates the entries in sequence order
+pub open spec fn entries_in_order<A: Ord, T>(es: Seq<(&Id<A>, &T)>, s: Seq<Id<A>>, m: SMap<Id<A>, T>) -> bool {
+    es.len() == s.len() && forall|i: int| 0 <= i < s.len() ==> *(#[trigger] es[i]).0 == s[i] && *es[i].1 == m[s[i]]
+}
+pub proof fn lemma_entries_order<A: Ord, T>(es: Seq<(&Id<A>, &T)>, kr: Seq<Id<A>>, m: SMap<Id<A>, T>)
+    requires vstd::laws_cmp::obeys_cmp::<Id<A>>(),
+        es.len() == m.dom().len(),
+        forall|i: int| 0 <= i < es.len() ==> #[trigger] m.contains_key(*es[i].0) && m[*es[i].0] == *es[i].1,
+        forall|k: Id<A>| #[trigger] m.contains_key(k) ==> es.contains((&k, &m[k])),
+        kr.len() == es.len(), forall|i: int| 0 <= i < es.len() ==> #[trigger] kr[i] == *es[i].0, vstd::std_specs::btree::increasing_seq(kr),
+    ensures exists|s: Seq<Id<A>>| #[trigger] is_order(s, m) && entries_in_order(es, s, m),
+{
+    vstd::std_specs::btree::axiom_increasing_seq_meaning(kr);
+    let s = Seq::new(es.len(), |i: int| *es[i].0);
+    assert forall|i: int, j: int| 0 <= i < j < s.len() implies id_cmp((#[trigger] s[i])@, (#[trigger] s[j])@) == Ordering::Less by {
+        assert(<Id<A> as vstd::std_specs::cmp::OrdSpec>::cmp_spec(&kr[i], &kr[j]) is Less);
+        assert(id_cmp(kr[i]@, kr[j]@) == Ordering::Less);
+    }
+    assert forall|i: int, j: int| 0 <= i < s.len() && 0 <= j < s.len() && i != j implies s[i] != s[j] by {
+        lemma_ord_ok::<Id<A>>();
+        let (a, b) = if i < j { (s[i], s[j]) } else { (s[j], s[i]) };
+        assert(id_cmp(a@, b@) == Ordering::Less);
+        assert(a.cmp_spec(&b) == Ordering::Less);
+        if a == b { assert((a.cmp_spec(&a) == Ordering::Less) <==> (a.cmp_spec(&a) == Ordering::Greater)); }
+    }
+    assert(s.to_set() =~= m.dom()) by {
+        assert forall|k: Id<A>| s.to_set().contains(k) <==> m.dom().contains(k) by {
+            if s.to_set().contains(k) { let i = choose|i: int| 0 <= i < s.len() && s[i] == k; assert(m.contains_key(*es[i].0)); }
+            if m.contains_key(k) { let i = choose|i: int| 0 <= i < es.len() && es[i] == (&k, &m[k]); assert(s[i] == k); }
+        }
+    }
+    assert(is_order(s, m));
+    assert forall|i: int| 0 <= i < s.len() implies *(#[trigger] es[i]).0 == s[i] && *es[i].1 == m[s[i]] by { assert(m.contains_key(*es[i].0)); }
+    assert(entries_in_order(es, s, m));
+}
+
+/// same for a sequence of owned keys (the shape vstd's `values()` specification uses)
+pub proof fn lemma_keys_order_owned<A: Ord, T>(ks: Seq<Id<A>>, m: SMap<Id<A>, T>)
+    requires vstd::laws_cmp::obeys_cmp::<Id<A>>(), ks.to_set() == m.dom(), ks.no_duplicates(), vstd::std_specs::btree::increasing_seq(ks),
+    ensures is_order(ks, m),
+{
+    vstd::std_specs::btree::axiom_increasing_seq_meaning(ks);
+    assert forall|i: int, j: int| 0 <= i < j < ks.len() implies id_cmp((#[trigger] ks[i])@, (#[trigger] ks[j])@) == Ordering::Less by {
+        assert(<Id<A> as vstd::std_specs::cmp::OrdSpec>::cmp_spec(&ks[i], &ks[j]) is Less);
+    }
 }
 
 } // verus!
